@@ -310,6 +310,9 @@ Definition ex_st : sseq := mkS [[0; 2; 0; 4]; [1; 3; 1; 4]] 6 0.
 Example ex_striped : Striped 5 4 ex_s ex_st.
 Proof. apply check_striped_sound_lemma. vm_compute. reflexivity. Qed.
 
+Example ex_placed : Placed 5 4 ex_s ex_st.
+Proof. apply (C04_striped_iff_placement 5 4 ex_s ex_st); [lia|exact ex_striped]. Qed.
+
 Example ex_stripe_into_stale_buffer :
   stripe_into_generic 5 4 ex_s (mkS [[1; 1; 1; 1]; [2; 2; 2; 2]; [3; 3; 3; 3]] 12 1) = Ok ex_st.
 Proof. vm_compute. reflexivity. Qed.
